@@ -58,6 +58,8 @@ def judge(n, info, acc, opts, step, res, labels=True, expect_objs=None, strict_o
                     expect_objs=expect_objs, strict_objs=strict_objs,
                     info=dict(ops=sorted(info['ops']), nbprod=bool(info['nbprod'])))
     tag = []
+    if common.alloc_limit(run, res):
+        return None
     if run.sanitizer or run.signal or run.timed_out:
         if run.timed_out:
             res.inconclusive += 1
